@@ -1,29 +1,31 @@
 (* Properties_C09: the loop calls exactly the ready, subscribed channels -- same under epoll and poll.
    Only statements, closed by [exact], with Print Assumptions and non-vacuity examples.
-   Models: C09_Model (ep_step = EPollPoller + Channel, pp_step ri = PollPoller + Channel, where
-   ri = "removeChannel resets the channel's index"; the value for the current tree is the generated
-   Gen_C09.PollPoller_remove_resets_index).  Tie to /repo: regenerated constants/facts
-   (Gen_Consts, Gen_C09) and the correspondence check (bin/check C09).
+   Models: C09_Model (ep_step = EPollPoller + Channel; pp_step ri = PollPoller + Channel with
+   ri = "removeChannel resets the channel's index"; pp_step_current = pp_step at the generated
+   Gen_C09.PollPoller_remove_resets_index; loop_iter = one iteration of EventLoop::loop() around a
+   poller; env_ready / handleRead_env / timerRead_env = the wake-up eventfd and the timerfd).
+   Tie to /repo: regenerated constants/facts/functions (Gen_Consts, Gen_C09) with link lemmas, and the
+   correspondence check (bin/check C09).
 
-   Histories: [hist_ok extra spec0 ops] = every op meets the documented preconditions of the
-   Channel API ([sguard]: one registered channel per descriptor, remove() only when registered and
-   isNoneEvent(), destruction only after remove(), no use of a destroyed object) and the extra
-   hypothesis [extra].  Interest changes happen at quiescent points (between polls).
+   Histories: [hist_ok extra spec0 ops] / [reachE], [reachPC] = every op meets the documented
+   preconditions of the Channel API ([sguard]: one registered channel per descriptor, remove() only
+   when registered and isNoneEvent(), destruction only after remove(), no use of a destroyed object)
+   and the extra hypothesis.  Interest changes happen at quiescent points or inside the callbacks of
+   a batch (loop_iter).
 
-   FULL STATEMENTS that the faithful models falsify (findings; see findings/C09.md):
-     F-1   poll back-end, pinned removeChannel (ri = false): "for ALL histories" fails on
-           remove(); enableReading() of the same object      -> C09_poll_reregister_refuted
-     F-14  both back-ends: an update that leaves the interest empty, applied to a channel that is
-           not in the kernel's set (fresh, or already fully disabled), registers the descriptor
-           with an EMPTY interest: HUP/ERR are then delivered to a disabled channel (epoll: also
-           after disableAll(); disableAll()), the back-ends differ, and PollPoller::removeChannel
-           asserts                                            -> C09_disabled_called_refuted,
-                                                                 C09_backends_agree_refuted,
-                                                                 C09_no_fault_refuted
-   The theorems below therefore carry [sclean] ("no redundant disable") and are named _partial;
-   the poll theorem additionally carries [sfresh] when ri = false. *)
+   F-1 (PollPoller::removeChannel left index_ set) is FIXED in /repo (bbde8b0): the theorems about the
+   current tree (C09_poll_refines, C09_backends_agree, ...) carry no hypothesis for it, they depend on
+   the generated fact through C09_poll_fix_generated; reverting the fix breaks them.  The statement
+   about the old code stays as C09_poll_reregister_refuted (ri = false).
+   F-14 (recorded in KNOWN_FINDINGS.txt, key F14.empty-interest-registered): an update that leaves the
+   interest empty, applied to a channel that is not in the kernel's set (fresh, or already fully
+   disabled), registers the descriptor with an EMPTY interest: HUP/ERR are then delivered to a
+   disabled channel (epoll: also after disableAll(); disableAll()), the back-ends differ, and
+   PollPoller::removeChannel asserts -> C09_disabled_called_refuted, C09_backends_agree_refuted,
+   C09_no_fault_refuted.  Every positive theorem therefore carries [sclean] ("no redundant
+   disable"): it is part of reachE / reachPC / hist_ok sclean / batch_ok and spelled out there. *)
 From Coq Require Import List ZArith NArith Lia Bool Arith Permutation.
-From Muduo Require Import Gen_Consts Gen_C09 C09_Model C09_Proofs C09_ProofsPoll C09_Witness.
+From Muduo Require Import Gen_Consts Gen_C09 C09_Model C09_Proofs C09_ProofsPoll C09_ProofsLoop C09_Witness.
 Import ListNotations.
 
 (* ---- epoll back-end ------------------------------------------------------------------------------- *)
@@ -71,6 +73,33 @@ Theorem C09_epoll_reach_inv : forall st sp, reachE st sp -> InvE st sp.
 Proof. exact reachE_inv. Qed.
 Print Assumptions C09_epoll_reach_inv.
 
+(* the bound in terms of the GENERATED constant and the GENERATED growth guard of EPollPoller::poll:
+   from any reachable state (events_ never shrinks below kInitEventListSize), with N entries ready and
+   N < kInitEventListSize * 2^k, after k polls -- whichever subsets the kernel picked -- the next poll
+   reports every one of them *)
+Theorem C09_epoll_bounded_generated : forall choices choice st sp ready,
+  reachE st sp ->
+  length (ep_full st ready) < Z.to_nat EPollPoller_kInitEventListSize * 2 ^ length choices ->
+  exists st' outs st'' act, ep_run st (map (Poll ready) choices) = Ok (st', outs) /\
+     ep_step st' (Poll ready choice) = Ok (st'', act) /\ Permutation (ep_full st ready) act.
+Proof. exact reachE_polls_report_all. Qed.
+Print Assumptions C09_epoll_bounded_generated.
+
+(* the model's growth step IS the guard and the resize argument translated from EPollPoller::poll
+   (numEvents = number of entries returned, size = events_.size()) *)
+Theorem C09_epoll_growth_generated : forall st ready choice st' act,
+  ep_step st (Poll ready choice) = Ok (st', act) ->
+  Z.of_nat (e_cap st') =
+  if EPollPoller_poll_grow_guard (Z.of_nat (length act)) (Z.of_nat (e_cap st))
+  then EPollPoller_poll_new_size (Z.of_nat (e_cap st)) else Z.of_nat (e_cap st).
+Proof. exact ep_poll_cap_generated. Qed.
+Print Assumptions C09_epoll_growth_generated.
+
+Theorem C09_epoll_cap_never_below_init : forall st sp, reachE st sp ->
+  Z.to_nat EPollPoller_kInitEventListSize <= e_cap st.
+Proof. exact (fun st sp R => ie_capmin st sp (reachE_inv st sp R)). Qed.
+Print Assumptions C09_epoll_cap_never_below_init.
+
 
 (* ---- poll back-end ------------------------------------------------------------------------------------ *)
 (* [reachP ri]: histories meeting the preconditions, sclean, and -- only when removeChannel does not
@@ -113,6 +142,39 @@ Theorem C09_poll_reach_inv : forall ri st sp, reachP ri st sp -> InvP ri st sp.
 Proof. exact reachP_inv. Qed.
 Print Assumptions C09_poll_reach_inv.
 
+(* ---- poll back-end of the CURRENT tree: F-1 fixed, no sfresh ------------------------------------------ *)
+(* the generated fact: PollPoller::removeChannel ends with channel->set_index(<negative>) *)
+Theorem C09_poll_fix_generated : PollPoller_remove_resets_index = true.
+Proof. exact resets_index_current. Qed.
+Print Assumptions C09_poll_fix_generated.
+
+(* [reachPC]: ALL histories meeting the preconditions and sclean under pp_step_current -- remove() and
+   re-registration of the same Channel object included.  Every conforming op succeeds; Poll leaves the
+   state alone and reports EXACTLY the interest map's set; a violating op is Rejected. *)
+Theorem C09_poll_refines : forall st sp, reachPC st sp ->
+  forall o,
+    (sguard sp o -> sclean sp o ->
+       exists st' act, pp_step_current st o = Ok (st', act) /\ reachPC st' (spec_step sp o) /\
+         match o with
+         | Poll ready _ => st' = st /\ forall c r, In (c, r) act <-> spec_reports sp ready c r
+         | _ => act = []
+         end) /\
+    (~ sguard sp o -> pp_step_current st o = Rejected).
+Proof. exact reachPC_refines. Qed.
+Print Assumptions C09_poll_refines.
+
+Theorem C09_poll_no_fault : forall st sp o, reachPC st sp -> sclean sp o -> pp_step_current st o <> Fault.
+Proof. exact reachPC_no_fault. Qed.
+Print Assumptions C09_poll_no_fault.
+
+(* every history (list of ops) meeting the preconditions and sclean runs to the end on both back-ends
+   and reaches states related to the same interest map *)
+Theorem C09_histories_run : forall ops, hist_ok sclean spec0 ops ->
+  (exists stE outsE, ep_run ep_init ops = Ok (stE, outsE) /\ reachE stE (spec_run spec0 ops)) /\
+  (exists stP outsP, pp_run_current pp_init ops = Ok (stP, outsP) /\ reachPC stP (spec_run spec0 ops)).
+Proof. exact histories_run. Qed.
+Print Assumptions C09_histories_run.
+
 (* ---- both back-ends, same history --------------------------------------------------------------------- *)
 (* the poll back-end reports exactly what the kernel has ready for the epoll back-end; epoll reports
    a part of it, and all of it when it fits the result array *)
@@ -125,6 +187,20 @@ Theorem C09_backends_agree_partial : forall ri stE stP sp ready choiceE choiceP 
      (length (ep_full stE ready) <= e_cap stE -> forall c r, In (c, r) actP -> In (c, r) actE)).
 Proof. exact backends_agree. Qed.
 Print Assumptions C09_backends_agree_partial.
+
+(* the current tree, ALL sclean histories: both polls succeed; poll's list = the interest map's set =
+   what the kernel has ready for epoll; epoll's list is a part of it, all of it when it fits events_ *)
+Theorem C09_backends_agree : forall stE stP sp ready choiceE choiceP,
+  reachE stE sp -> reachPC stP sp ->
+  exists actP stE' actE,
+    pp_step_current stP (Poll ready choiceP) = Ok (stP, actP) /\
+    ep_step stE (Poll ready choiceE) = Ok (stE', actE) /\
+    (forall c r, In (c, r) actP <-> spec_reports sp ready c r) /\
+    (forall c r, In (c, r) actP <-> In (c, r) (ep_full stE ready)) /\
+    (forall c r, In (c, r) actE -> In (c, r) actP) /\
+    (length (ep_full stE ready) <= e_cap stE -> forall c r, In (c, r) actP -> In (c, r) actE).
+Proof. exact backends_agree_current. Qed.
+Print Assumptions C09_backends_agree.
 
 (* ---- dispatch (Channel::handleEventWithGuard) ----------------------------------------------------- *)
 Theorem C09_dispatch_sound : forall r,
@@ -141,6 +217,29 @@ Theorem C09_dispatch_order : forall r, exists a b c d : bool,
 Proof. exact dispatch_order. Qed.
 Print Assumptions C09_dispatch_order.
 
+(* the function translated from the if-statements of Channel::handleEventWithGuard (Gen_C09, callback
+   codes 0..3) IS [dispatch]: C09_dispatch_sound is a statement about the generated function *)
+Theorem C09_dispatch_generated : forall r,
+  map cb_of_code (Channel_handleEventWithGuard_calls r) = dispatch r.
+Proof. exact dispatch_link. Qed.
+Print Assumptions C09_dispatch_generated.
+
+(* Channel::handleEvent: the generated guard; a tied channel whose owner is gone runs NO callback,
+   an untied one or one whose owner is alive runs exactly [dispatch] *)
+Theorem C09_handle_event_generated : forall tied alive r,
+  handle_event tied alive r =
+  if Channel_handleEvent_runs tied alive then map cb_of_code (Channel_handleEventWithGuard_calls r) else [].
+Proof. exact handle_event_generated. Qed.
+Print Assumptions C09_handle_event_generated.
+Theorem C09_tie_guard : forall tied alive r,
+  (tied = true -> alive = false -> handle_event tied alive r = []) /\
+  (tied = false \/ alive = true -> handle_event tied alive r = dispatch r).
+Proof. exact handle_event_tie. Qed.
+Print Assumptions C09_tie_guard.
+Theorem C09_tie_guard_is_lock_generated : Channel_handleEvent_guard_is_tie_lock = true.
+Proof. exact tie_guard_is_lock. Qed.
+Print Assumptions C09_tie_guard_is_lock_generated.
+
 (* a reported condition m that is not one of ERR|HUP|NVAL (readable, priority, writable) was
    subscribed and holds of the descriptor; any reported condition holds of the descriptor *)
 Theorem C09_reported_subscribed : forall ready_bits ev m, N.land EHN m = 0%N ->
@@ -151,6 +250,114 @@ Theorem C09_reported_holds : forall ready_bits ev m,
   N.land (N.land ready_bits (N.lor ev EHN)) m <> 0%N -> N.land ready_bits m <> 0%N.
 Proof. exact reported_holds. Qed.
 Print Assumptions C09_reported_holds.
+
+(* ---- one iteration of EventLoop::loop(): dispatch from the activeChannels_ snapshot ------------------ *)
+(* generated: the while body is clear(); poll(.., &activeChannels_); for (channel : activeChannels_)
+   handleEvent -- with no test in the loop body *)
+Theorem C09_loop_dispatches_snapshot_generated : EventLoop_loop_dispatches_snapshot = true.
+Proof. exact loop_snapshot_current. Qed.
+Print Assumptions C09_loop_dispatches_snapshot_generated.
+
+(* For every reachable state, every poll result [act] and every callback behaviour [h] whose Channel
+   API calls respect the preconditions ([batch_ok]: sguard, sclean, EventLoop::removeChannel's and
+   ~Channel's asserts):
+   (1) the iteration runs the callbacks of EVERY channel of the snapshot, as dispatched from the revents
+       of poll time -- so a channel disabled by an earlier callback of the same batch IS still called;
+   (2) every channel of the snapshot was subscribed and ready AT POLL TIME;
+   (3) afterwards the poller is in the state the callbacks' calls lead to, and every later poll reports
+       only channels subscribed in THAT interest map: the staleness cannot outlive the iteration. *)
+Theorem C09_stale_within_batch : forall h runs st sp ready choice st1 act,
+  reachE st sp -> ep_step st (Poll ready choice) = Ok (st1, act) ->
+  batch_ok h (map fst act) sp (callbacks_g runs act) ->
+  exists st', ep_loop_iter h runs st ready choice = Ok (st', act, callbacks_g runs act) /\
+    reachE st' (spec_run sp (batch_ops h (callbacks_g runs act))) /\
+    (forall c r, In (c, r) act -> spec_reports sp ready c r) /\
+    (forall ready' choice' st'' act', ep_step st' (Poll ready' choice') = Ok (st'', act') ->
+       forall c r, In (c, r) act' -> spec_reports (spec_run sp (batch_ops h (callbacks_g runs act))) ready' c r).
+Proof. exact stale_within_batch_E. Qed.
+Print Assumptions C09_stale_within_batch.
+
+Theorem C09_stale_within_batch_poll : forall h runs st sp ready choice st1 act,
+  reachPC st sp -> pp_step_current st (Poll ready choice) = Ok (st1, act) ->
+  batch_ok h (map fst act) sp (callbacks_g runs act) ->
+  exists st', pp_loop_iter_current h runs st ready choice = Ok (st', act, callbacks_g runs act) /\
+    reachPC st' (spec_run sp (batch_ops h (callbacks_g runs act))) /\
+    (forall c r, In (c, r) act -> spec_reports sp ready c r) /\
+    (forall ready' choice' st'' act', pp_step_current st' (Poll ready' choice') = Ok (st'', act') ->
+       forall c r, In (c, r) act' -> spec_reports (spec_run sp (batch_ops h (callbacks_g runs act))) ready' c r).
+Proof. exact stale_within_batch_P. Qed.
+Print Assumptions C09_stale_within_batch_poll.
+
+(* "never later", spelled out: a channel that is unregistered or has no interest is reported by no poll *)
+Theorem C09_off_never_reported : forall sp ready c r,
+  (forall s, sp c = Some s -> s_reg s = false \/ s_ev s = 0%N) -> ~ spec_reports sp ready c r.
+Proof. exact not_reported_when_off. Qed.
+Print Assumptions C09_off_never_reported.
+
+(* the two asserts that guard a batch: remove() of a channel of the snapshot other than the current
+   one, destruction of the current one -> the callback's op is Rejected *)
+Theorem C09_batch_asserts : forall snap cur c,
+  (c <> cur -> In c snap -> loop_guard snap cur (Remove c) = false) /\ loop_guard snap cur (Del cur) = false.
+Proof. exact (fun snap cur c => conj (loop_guard_remove_ahead snap cur c) (loop_guard_del_current snap cur)). Qed.
+Print Assumptions C09_batch_asserts.
+
+(* ---- the loop's own descriptors: drained on notification, so an idle loop blocks ------------------------ *)
+(* generated: EventLoop::handleRead reads 8 bytes from wakeupFd_ unconditionally, the eventfd is no
+   semaphore; TimerQueue::handleRead calls readTimerfd(timerfd_, ..) which reads 8 bytes *)
+Theorem C09_wakeup_reads_generated :
+  drains EventLoop_handleRead_reads_wakeupfd EventLoop_eventfd_semaphore EventLoop_handleRead_read_size = true /\
+  drains TimerQueue_handleRead_reads_timerfd false TimerQueue_readTimerfd_read_size = true.
+Proof. exact (conj wake_drains_current timer_drains_current). Qed.
+Print Assumptions C09_wakeup_reads_generated.
+
+(* wake-up channel wc (eventfd wfd) and timer channel tc (timerfd tfd) registered for reading, every
+   other registered channel quiet.  Whatever the eventfd counter and the number of unread expirations:
+   one iteration reports exactly the notified ones, runs exactly their read callbacks, which reset both
+   counters; after that NOTHING is ready in any state with this interest map: epoll_wait has nothing to
+   return and blocks (until its time-out or a new event) -- the loop does not spin. *)
+Theorem C09_wakeup_drained : forall h runs user wc tc wfd tfd st sp e choice,
+  reachE st sp -> loop_channels sp wc tc wfd tfd -> others_quiet sp wc tc e ->
+  runs wc = true -> runs tc = true -> (forall k, h wc k = []) -> (forall k, h tc k = []) ->
+  exists st' act e',
+    loop_iter_env ep ep_step h runs (effects_current wc tc user) wfd tfd st e choice = Ok (st', act, callbacks_g runs act, e') /\
+    reachE st' sp /\
+    (forall c r, In (c, r) act <->
+       (c = wc /\ (0 < k_wake e)%N /\ r = POLLIN) \/ (c = tc /\ (0 < k_texp e)%N /\ r = POLLIN)) /\
+    (forall ck, In ck (callbacks_g runs act) <->
+       (ck = (wc, CbRead) /\ (0 < k_wake e)%N) \/ (ck = (tc, CbRead) /\ (0 < k_texp e)%N)) /\
+    k_wake e' = 0%N /\ k_texp e' = 0%N /\ k_rd e' = k_rd e /\
+    (forall st2, reachE st2 sp -> ep_full st2 (env_ready wfd tfd e') = []).
+Proof. exact wakeup_drained_E. Qed.
+Print Assumptions C09_wakeup_drained.
+
+Theorem C09_wakeup_drained_poll : forall h runs user wc tc wfd tfd st sp e choice,
+  reachPC st sp -> loop_channels sp wc tc wfd tfd -> others_quiet sp wc tc e ->
+  runs wc = true -> runs tc = true -> (forall k, h wc k = []) -> (forall k, h tc k = []) ->
+  exists st' act e',
+    loop_iter_env pp pp_step_current h runs (effects_current wc tc user) wfd tfd st e choice = Ok (st', act, callbacks_g runs act, e') /\
+    reachPC st' sp /\
+    (forall c r, In (c, r) act <->
+       (c = wc /\ (0 < k_wake e)%N /\ r = POLLIN) \/ (c = tc /\ (0 < k_texp e)%N /\ r = POLLIN)) /\
+    (forall ck, In ck (callbacks_g runs act) <->
+       (ck = (wc, CbRead) /\ (0 < k_wake e)%N) \/ (ck = (tc, CbRead) /\ (0 < k_texp e)%N)) /\
+    k_wake e' = 0%N /\ k_texp e' = 0%N /\ k_rd e' = k_rd e /\
+    (forall st2 choice2, reachPC st2 sp -> pp_step_current st2 (Poll (env_ready wfd tfd e') choice2) = Ok (st2, [])).
+Proof. exact wakeup_drained_P. Qed.
+Print Assumptions C09_wakeup_drained_poll.
+
+(* the contrast (why the read matters): a handleRead that does not read leaves the eventfd readable and
+   the wake-up channel is in the kernel's ready set again at once -- every iteration returns immediately *)
+Theorem C09_wakeup_undrained_spins : forall h runs user sem sz wc tc wfd tfd st sp e choice,
+  reachE st sp -> loop_channels sp wc tc wfd tfd -> others_quiet sp wc tc e ->
+  runs wc = true -> runs tc = true -> (forall k, h wc k = []) -> (forall k, h tc k = []) ->
+  (0 < k_wake e)%N ->
+  exists st' act e',
+    loop_iter_env ep ep_step h runs (loop_effects (handleRead_env false sem sz) timer_rd_current wc tc user)
+      wfd tfd st e choice = Ok (st', act, callbacks_g runs act, e') /\
+    reachE st' sp /\ In (wc, POLLIN) act /\ k_wake e' = k_wake e /\
+    In (wc, POLLIN) (ep_full st' (env_ready wfd tfd e')).
+Proof. exact wakeup_undrained_spins_E. Qed.
+Print Assumptions C09_wakeup_undrained_spins.
 
 (* ---- findings: the full statements are false of the faithful models ------------------------------- *)
 (* F-1: with the pinned removeChannel (no index reset) re-enabling a removed Channel object takes the
@@ -214,3 +421,44 @@ Qed.
 (* the growth bound is not vacuous: 16 * 2^5 exceeds 300 *)
 Example ex_bound_300 : 300 < kInitEventListSize * 2 ^ 5.
 Proof. vm_compute. lia. Qed.
+
+(* the F-1 witness on the current tree: it runs, reaches a related state, and the re-registered channel
+   is reported *)
+Example ex_reregister_current : exists st outs,
+  pp_run_current pp_init w_reregister = Ok (st, outs) /\ reachPC st (spec_run spec0 w_reregister) /\
+  pp_step_current st (Poll readyIN []) = Ok (st, [(0, POLLIN)]).
+Proof.
+  destruct (run_reachPC w_reregister pp_init spec0 reachPC_init w_reregister_ok) as [st [outs [E R]]].
+  exists st, outs. split; [exact E|]. split; [exact R|].
+  vm_compute in E. injection E as <- <-. vm_compute. reflexivity.
+Qed.
+
+(* stale within the batch is not vacuous: 0 and 1 both readable, 0's read callback disables 1 -- 1 is
+   still called in this iteration, and is not reported in the next one *)
+Example ex_stale_within_batch : exists st0 outs st1 st2,
+  ep_run ep_init w_two = Ok (st0, outs) /\ reachE st0 (spec_run spec0 w_two) /\
+  batch_ok h_stale [0; 1] (spec_run spec0 w_two) [(0, CbRead); (1, CbRead)] /\
+  ep_loop_iter h_stale all_run st0 readyIN [] = Ok (st1, [(0, POLLIN); (1, POLLIN)], [(0, CbRead); (1, CbRead)]) /\
+  ep_loop_iter (fun _ _ => []) all_run st1 readyIN [] = Ok (st2, [(0, POLLIN)], [(0, CbRead)]).
+Proof.
+  destruct (run_reachE w_two ep_init spec0 reachE_init w_two_ok) as [st0 [outs [E R]]].
+  exists st0, outs. vm_compute in E. injection E as <- <-.
+  eexists _, _. split; [reflexivity|]. split; [exact R|]. split.
+  - cbn [batch_ok fst snd h_stale]. split; [|split; exact I].
+    cbn [cb_ops_ok]. split; [reflexivity|]. split; [|split; [|exact I]].
+    + eexists. split; [reflexivity|]. left. reflexivity.
+    + intros s H. injection H as <-. intros _. split; [reflexivity|]. vm_compute. discriminate.
+  - split; vm_compute; reflexivity.
+Qed.
+
+(* the hypotheses of C09_wakeup_drained are inhabited: the loop's channels as its constructors leave them *)
+Example ex_wakeup_setup : exists st outs,
+  ep_run ep_init w_loop_init = Ok (st, outs) /\ reachE st (spec_run spec0 w_loop_init) /\
+  loop_channels (spec_run spec0 w_loop_init) 1 0 4 3 /\
+  forall e, others_quiet (spec_run spec0 w_loop_init) 1 0 e.
+Proof.
+  destruct (run_reachE w_loop_init ep_init spec0 reachE_init w_loop_init_ok) as [st [outs [E R]]].
+  exists st, outs. split; [exact E|]. split; [exact R|]. split.
+  - split; [discriminate|]. split; exists false; vm_compute; reflexivity.
+  - intros e c s H _ N1 N0. destruct c as [|[|c]]; [contradiction|contradiction|]. cbn in H. discriminate.
+Qed.
